@@ -37,6 +37,8 @@ TLk == /\ Is("lk") /\ l' = l + 1 /\ UNCHANGED corrupt
           ELSE IF E.act = "openend"     \* ... and now ran to its end
           THEN /\ Must("lock", holder = E.o /\ (IF corrupt THEN IsErr(E.res) ELSE E.res = "ok"))
                /\ holder' = (IF E.res = "ok" THEN E.o ELSE 0)
+          ELSE IF E.act = "reclose"     \* a second Close on a handle closed earlier: no effect on whoever holds the lock now
+          THEN /\ Must("lock", E.res = "ok" /\ E.o # holder) /\ UNCHANGED holder
           ELSE IF E.act \in {"closebegin", "work"}   \* the holder's Close is under way (parked) / the holder wrote and merged:
           THEN /\ Must("lock", E.o = holder /\ (E.act = "work" => E.res = "ok")) /\ UNCHANGED holder   \* the database is still open
           ELSE IF E.act = "close"
